@@ -47,34 +47,40 @@ def parent_xml(p):
     kids = p['kids']
     inv = ''
     for cid in kids:
-        inv += '''<invoke type="scxml" id="%s"%s><param name="me" expr="'%s'"/>
+        one = '''<invoke type="scxml" id="%s"%s><param name="me" expr="'%s'"/>
       <content>%s</content>
       <finalize><assign location="fin" expr="_event.data.n"/></finalize></invoke>\n''' % (cid, ' autoforward="true"' if p['af'] else '', cid, child_xml(p, cid))
+        # par: every invoke lives in its own region of the parallel state s0 (invocations in several active states)
+        inv += ('<state id="r_%s">%s</state>\n' % (cid, one)) if p.get('par') else one
     leave = '<send event="leave" delay="%dms"/>' % p['Dp'] if p['Dp'] is not None else ''
     flash = '<if cond="visits == 1"><raise event="flash"/></if>' if p['flash'] else ''
     again = '<if cond="visits &lt; %d"><send event="again" delay="%dms"/></if>' % (p['revisit'] + 1 + (1 if p['flash'] else 0), p['Da']) if (p['revisit'] or p['flash']) else ''
     ondone = ('<transition event="done.invoke.c1" target="s1"><log label="pd" expr="_event.name"/></transition>' if p['leave_on_done']
               else '<transition event="done.invoke"><log label="pd" expr="_event.name"/></transition>')
+    bounce = '<send event="bounce" delay="%dms"/>' % p['Db'] if p.get('Db') is not None else ''
     return '''<scxml xmlns="http://www.w3.org/2005/07/scxml" version="1.0" datamodel="lua" initial="s0" name="parent">
-  <datamodel><data id="fin" expr="0"/><data id="k" expr="0"/><data id="visits" expr="0"/></datamodel>
-  <state id="s0">
-    <onentry><assign location="visits" expr="visits + 1"/><assign location="k" expr="0"/>%(flash)s%(leave)s<send event="tick" delay="%(T)dms"/></onentry>
+  <datamodel><data id="fin" expr="0"/><data id="k" expr="0"/><data id="visits" expr="0"/><data id="bounced" expr="0"/></datamodel>
+  <%(s0kind)s id="s0">
+    <onentry><assign location="visits" expr="visits + 1"/><assign location="k" expr="0"/>%(flash)s%(leave)s<if cond="bounced == 0">%(bounce)s</if><send event="tick" delay="%(T)dms"/></onentry>
     %(inv)s
     <transition event="flash" target="s1"/>
+    <transition event="bounce" target="s0"><assign location="bounced" expr="1"/></transition>
     <transition event="c" cond="fin == _event.data.n"><log label="pc" expr="_event.invokeid .. ' ' .. _event.data.n"/></transition>
     <transition event="c"><log label="FINALIZE-LATE" expr="_event.invokeid .. ' ' .. _event.data.n"/></transition>
     <transition event="tick" cond="k &lt; %(NP)d"><assign location="k" expr="k + 1"/>
       <send target="#_%(to)s" event="p"><param name="n" expr="k"/></send><send event="tick" delay="%(T)dms"/></transition>
     %(ondone)s
-    <transition event="leave" target="s1"/>
-  </state>
+    <transition event="leave" target="%(leaveto)s"/>
+  </%(s0kind)s>
+  <final id="pfin"/>
   <state id="s1">
     <onentry><log label="in-s1" expr="visits"/>%(again)s</onentry>
     <transition event="c"><log label="pc" expr="_event.invokeid .. ' ' .. _event.data.n"/></transition>
     <transition event="done.invoke"><log label="pd" expr="_event.name"/></transition>
     <transition event="again" target="s0"/>
   </state>
-</scxml>''' % {'inv': inv, 'leave': leave, 'flash': flash, 'again': again, 'ondone': ondone, 'T': p['T'], 'NP': p['NP'], 'to': kids[0]}
+</scxml>''' % {'inv': inv, 'leave': leave, 'flash': flash, 'again': again, 'ondone': ondone, 'T': p['T'], 'NP': p['NP'], 'to': kids[0], 'bounce': bounce,
+       's0kind': 'parallel' if p.get('par') else 'state', 'leaveto': 'pfin' if p.get('final_on_leave') else 's1'}
 
 
 def gen_params(rng):
@@ -85,6 +91,9 @@ def gen_params(rng):
          'revisit': rng.choice([0, 0, 1, 2]), 'Da': rng.choice([1, 5, 20]), 'leave_on_done': rng.random() < 0.4,
          'fwd': rng.choice([0, 10, 30]), 'fwdms': rng.choice([1, 3, 7])}
     if p['Dp'] is None and not p['leave_on_done']: p['revisit'] = 0
+    p['par'] = len(kids) == 2 and rng.random() < 0.5          # one invoking region per child
+    p['Db'] = rng.choice([None, None, 1, 10, 30])             # the invoking state is left and re-entered by one transition after Db ms
+    p['final_on_leave'] = p['Dp'] is not None and rng.random() < 0.3   # leaving the invoking state ends the parent (top-level final)
     return p
 
 
@@ -114,11 +123,16 @@ def analyse(recs, p):
     par = [r for r in recs if r[2] == 'stepper']
     # --- invocations: per id list of dicts(ib, ia, ub, ua) from the parent's records
     invs = collections.defaultdict(list)
-    active = False; invoked = {c: False for c in kids}; ended = False
+    active = False; invoked = {c: False for c in kids}; ended = False; pending_cancel = set()
     for r in par:
         k, a = r[3], r[4].split(' ')
         if k == 'NB' and a[0] == psid and a[1] == 's0': active = True
-        elif k == 'XB' and a[0] == psid and a[1] == 's0': active = False
+        elif k == 'XB' and a[0] == psid and a[1] == 's0':
+            active = False
+            pending_cancel |= set(c for c in kids if invoked[c])     # exiting the state must cancel what runs, also when the state is re-entered at once
+        elif k == 'KA' and a[0] == psid:
+            for c in kids:
+                if invoked[c]: bad.append(('parent-finished-but-invoke-not-cancelled', {'id': c, 'seq': r[0]}))
         elif k == 'IB' and a[0] == psid:
             c = a[1]
             if not active: bad.append(('invoke-started-while-state-inactive', {'id': c, 'seq': r[0]}))
@@ -129,14 +143,17 @@ def analyse(recs, p):
             c = a[1]
             if not invoked.get(c): bad.append(('cancelled-but-not-running', {'id': c, 'seq': r[0]}))
             else: invs[c][-1]['ub'] = r[0]
-            invoked[c] = False
+            invoked[c] = False; pending_cancel.discard(c)
         elif k == 'UA' and a[0] == psid and invs[a[1]]: invs[a[1]][-1]['ua'] = r[0]
         elif k == 'S' and a[0] == psid:
             for c in kids:
                 if active and not invoked[c]: bad.append(('macrostep-ended-with-state-active-but-invoke-not-started', {'id': c, 'seq': r[0]}))
-                if not active and invoked[c]: bad.append(('state-exited-but-invoke-not-cancelled', {'id': c, 'seq': r[0]}))
+                if c in pending_cancel: bad.append(('state-exited-but-invoke-not-cancelled', {'id': c, 'seq': r[0], 'state_active_again': active}))
+            pending_cancel.clear()
         elif k == 'DESTROY' and a[0] == 'end': ended = True
     destroyed = max([r[0] for r in par if r[3] == 'DESTROY' and r[4] == 'end'] or [None])
+    complete = lambda: ended and not parent_finished      # completeness rules need a parent that processed everything it was sent before quiescence
+    parent_finished = any(r[3] == 'KB' and r[4].split(' ')[0] == psid for r in par)   # reached its top-level final: what is still queued is never processed
     endseq = min([r[0] for r in par if r[3] == 'END'] or [float('inf')])      # the driver observed quiescence here; what follows is tear-down
     # --- child threads: thread -> (id, ordinal) through the hello log
     hello = collections.defaultdict(list)
@@ -194,7 +211,7 @@ def analyse(recs, p):
         # exactly once per child that finished on its own before any cancellation; optional when completion and cancellation overlapped
         definite = sum(1 for iv in invs[c] if iv['finished'] and (not iv['cancelled'] or not iv['overlap']))
         if total_done > may: bad.append(('done.invoke-without-finished-child-or-twice', {'id': c, 'processed': total_done, 'children_that_finished': may}))
-        if ended and total_done < definite and not p.get('_destroy_early'):
+        if complete() and total_done < definite and not p.get('_destroy_early'):
             # the parent may end (quiescence) only after the done event was delivered; it is lost otherwise
             bad.append(('done.invoke-lost', {'id': c, 'processed': total_done, 'children_that_finished_uncancelled': definite}))
         # child -> parent: per invocation the numbers must be 1..m (+ bye last, only from a child that reached its final state)
@@ -213,10 +230,10 @@ def analyse(recs, p):
         byes = sum(q.count(BYE) for q in seqs)
         if byes > may: bad.append(('event-of-cancelled-child-reached-parent', {'id': c, 'bye_events': byes, 'children_that_finished': may}))
         bdef = sum(1 for iv in invs[c] if iv['bye_definite'])
-        if ended and byes < bdef: bad.append(('child-to-parent-event-lost', {'id': c, 'bye_events': byes, 'children_whose_farewell_was_sent_before_cancellation': bdef}))
+        if complete() and byes < bdef: bad.append(('child-to-parent-event-lost', {'id': c, 'bye_events': byes, 'children_whose_farewell_was_sent_before_cancellation': bdef}))
         # completeness for a child that was never cancelled nor finished: all NC events arrive
         for iv in invs[c]:
-            if ended and not iv['finished'] and not iv['cancelled'] and iv.get('thread'):
+            if complete() and not iv['finished'] and not iv['cancelled'] and iv.get('thread'):
                 sent = sum(1 for r in by_thread[iv['thread']] if r[3] == 'CA' and ' send c' in r[4] and r[0] < endseq)
                 mine = [n for s, n in got if s > iv['ib'] and n != BYE]
                 if len(mine) < sent: bad.append(('child-to-parent-event-lost', {'id': c, 'sent': sent, 'received': len(mine)}))
@@ -226,7 +243,7 @@ def analyse(recs, p):
         stats['p_events'] += len(cps)
         if c != kids[0] and cps: bad.append(('event-delivered-to-wrong-session', {'id': c, 'observed': cps[:10]}))
         if cps != list(range(1, len(cps) + 1)): bad.append(('parent-to-child-events-out-of-order-or-duplicated', {'id': c, 'observed': cps[:40]}))
-        if c == kids[0] and ended and not iv['finished'] and not iv['cancelled']:
+        if c == kids[0] and complete() and not iv['finished'] and not iv['cancelled']:
             sent = sum(1 for r in par if r[3] == 'CA' and r[4].split(' ')[0] == psid and ' send p' in r[4] and r[0] > iv['ib'])
             if len(cps) < sent: bad.append(('parent-to-child-event-lost', {'sent': sent, 'received': len(cps)}))
         # autoforward: the fwd.* events the parent processed while this invocation was active, in that order, exactly once
@@ -240,7 +257,7 @@ def analyse(recs, p):
             if len(set(cfs)) != len(cfs): bad.append(('autoforwarded-event-duplicated', {'id': c, 'observed': cfs[:40]}))
             it = iter(win)
             if not all(x in it for x in cfs): bad.append(('autoforwarded-events-out-of-order-or-not-from-window', {'id': c, 'child': cfs[:40], 'parent_window': win[:40]}))
-            if ended and not iv['finished'] and not iv['cancelled'] and len(cfs) < len(win):
+            if complete() and not iv['finished'] and not iv['cancelled'] and len(cfs) < len(win):
                 bad.append(('autoforwarded-event-lost', {'id': c, 'child': len(cfs), 'parent_window': len(win)}))
     return bad, stats
 
